@@ -90,7 +90,7 @@ FUNC = "fun c => match c with (m, mem, ms, fr, out) => check_run m mem ms no_pre
 def jsonable(c, out):
     return dict(frames=[f.tolist() for f in c['frames']], search_range=[str(x) for x in c['sr']] if isinstance(c['sr'], tuple) else str(c['sr']),
                 memory=c['memory'], max_size=c['max_size'], link_strategy=c['strategy'], impl_labels=out,
-                **({'search_range_spelling': c['sr_spell']} if c.get('sr_spell') else {}))
+                **({'search_range_spelling': c['sr_spell']} if c.get('sr_spell') else {}), **({'bystander': True} if c.get('bystander') else {}))
 
 
 def numba_cap_binding(c):
@@ -437,8 +437,11 @@ def run(chk):
             continue
         if numba_cap_binding(c):
             c['strategy'] = 'recursive'
+        c['bystander'] = chk.rng.random() < 0.3
+        if c['bystander']:
+            chk.tally('link_iter with another linking job alive')
         with record_subnets(sublog, 400 if chk.tier == 'quick' else 6000):
-            out = linkgen.run_link_iter(c['frames'], c['sr'], memory=c['memory'], link_strategy=c['strategy'], max_size=c['max_size'])
+            out = linkgen.run_link_iter(c['frames'], c['sr'], memory=c['memory'], link_strategy=c['strategy'], max_size=c['max_size'], bystander=c['bystander'])
         cases.append(c); outs.append(out); terms.append(case_term(c, out))
         chk.tally('strategy=' + c['strategy']); chk.tally('memory=%d' % c['memory'])
         if out and out[-1] is None:
@@ -526,7 +529,8 @@ def replay(chk, path):
         c = dict(frames=[np.array(f, dtype=float).reshape(len(f), -1) for f in cj['frames']], sr=sr, memory=cj['memory'],
                  max_size=cj['max_size'], strategy=cj['link_strategy'])
         c['ndim'] = max(f.shape[1] for f in c['frames'])
-        out = linkgen.run_link_iter(c['frames'], c['sr'], memory=c['memory'], link_strategy=c['strategy'], max_size=c['max_size'])
+        c['bystander'] = bool(cj.get('bystander'))
+        out = linkgen.run_link_iter(c['frames'], c['sr'], memory=c['memory'], link_strategy=c['strategy'], max_size=c['max_size'], bystander=c['bystander'])
         res = common.coq_eval_lists(chk.work, IMPORTS, FUNC, [case_term(c, out)])
         chk.count(('movie', cj), True)
         print('replay: implementation labels', out, 'monitor code', res[0], CODES.get(res[0]))
